@@ -220,6 +220,8 @@ def run(index: RepoIndex, rep) -> None:
     from .c15 import per_object_bounds, type_sets
     per_object_bounds(index, rep, 'C20.R8')
     type_sets(index, rep, 'C20.R8')
+    from .c15 import shapes_dtypes
+    shapes_dtypes(index, rep, 'C20.R8', 'C20.R8')
     # the bounds are snapshots taken when the spaces are built, type_index is looked up in the
     # registry at conversion time: the registry may only grow at its end (C16.R1)
     from .c16 import registry_append_only
